@@ -74,6 +74,43 @@ def pyExec (kwargsRaise : Bool) (r : PyRet) : ARes :=
   | .rDict d => ⟨.ok, .dict d, d⟩
   | r => ⟨classifyPy r, .none, []⟩
 
+/-! ### the stream object the callable sees
+
+With capture on, `sys.stdout`/`sys.stderr` are the tee `Writer`, whose whole interface is `write`, `flush`,
+`isatty` and `fileno` (the last two answered by the live stream when one was handed over).  Anything else a
+text stream offers (`writelines`, `.buffer`, `.encoding`, `.errors`, `reconfigure`, …) is an `AttributeError`
+inside the callable, i.e. the callable raises an `Exception` -- at every verbosity.  With capture off the callable
+sees the caller's stream (or the live stream), a full text stream. -/
+
+inductive StreamOp | write | print | flush | isatty | fileno | writelines | bufferWrite | attr
+deriving DecidableEq, Repr
+
+inductive OpEffect | text | silent | raises
+deriving DecidableEq, Repr
+
+/-- `liveFd`: the stream that answers `fileno()` has a file descriptor (capture on: a live stream was handed over
+    and has one; capture off: the stream itself has one) -/
+def opEffect (capture liveFd : Bool) : StreamOp → OpEffect
+  | .write | .print => .text
+  | .flush | .isatty => .silent
+  | .fileno => if liveFd then .silent else .raises          -- io.UnsupportedOperation
+  | .writelines | .bufferWrite => if capture then .raises else .text
+  | .attr => if capture then .raises else .silent
+
+/-- the stream operations of a callable's body, executed until the first one that raises: for every completed
+    operation whether it produced text, and whether the body raised -/
+def bodyRun (capture liveFd : Bool) : List StreamOp → List Bool × Bool
+  | [] => ([], false)
+  | op :: rest =>
+    match opEffect capture liveFd op with
+    | .raises => ([], true)
+    | .text => (true :: (bodyRun capture liveFd rest).1, (bodyRun capture liveFd rest).2)
+    | .silent => (false :: (bodyRun capture liveFd rest).1, (bodyRun capture liveFd rest).2)
+
+/-- what the callable amounts to for `PythonAction.execute`: a raising stream operation makes it "raises Exception" -/
+def pyBody (capture liveFd : Bool) (ops : List StreamOp) (ret : PyRet) : PyRet :=
+  if (bodyRun capture liveFd ops).2 then .raisesExc else ret
+
 /-! ## cmd-actions -/
 
 /-- `process.returncode`: the exit status, or `-N` when killed by signal `N` -/
